@@ -527,6 +527,28 @@ fn mode_fix(args: &Args) {
     }
 }
 
+/// the whole search loop (no learning, no restarts) against Model/Search.lean
+fn mode_nlsearch(args: &Args) {
+    let mut master = Rng::new(args.seed ^ 0x5EA2C4);
+    let mut cfg = cfg_from(args);
+    cfg.max_product = cfg.max_product.min(2000);
+    cfg.plant_pct = 30;
+    for i in 0..args.cases {
+        let case_seed = master.next();
+        if only_skip(args, i) {
+            continue;
+        }
+        let mut r = Rng(case_seed);
+        let m = gen_model(&mut r, &cfg);
+        let setup = Setup::random(&mut r);
+        let id = format!("{}-{}", args.seed, i);
+        run_case(&id, &format!("scen=nlsearch seed={} {}", case_seed, setup.describe()), |out| {
+            kinds_meta(&m, out);
+            scen_nlsearch(&m, &setup, out)
+        });
+    }
+}
+
 /// C19: DRCP text and literal definitions
 fn mode_drcp(args: &Args) {
     let mut master = Rng::new(args.seed);
@@ -799,6 +821,7 @@ fn main() {
         "dimacs" => mode_dimacs(&args),
         "probe" => mode_probe(&args),
         "fix" => mode_fix(&args),
+        "nlsearch" => mode_nlsearch(&args),
         "proof" => mode_proof(&args),
         "configs" => mode_configs(&args),
         "interrupt" => mode_interrupt(&args),
